@@ -423,6 +423,19 @@ def check(ctx: Ctx, col: Collector, tier: str) -> None:
                 "the members of a union are translated one by one without flattening unions that come in through a type alias: `IntOrStr = Union[int, str]; def f(a: Optional[IntOrStr], b: Union[IntOrStr, int])` "
                 "is emitted as `a: union<union<Int, String>, Nothing?>`, `b: union<Int, union<Int, String>>` (duplicate kept), and `Mode = Literal[\"a\", \"b\"]; c: Mode | None` as "
                 "`union<literal<\"a\", \"b\">, Nothing?>` instead of one literal with null")
+    # ... and every flattened member has its translation in the union: no member is decided away by comparing translated members with each
+    # other (the model classes compare Tuple / Callable / List / Set arguments as multisets and literal values with ==, so `Tuple[int, str]`
+    # and `Tuple[str, int]`, `Literal[1]` and `Literal[True]` pass for duplicates)
+    key = f"{vkey}::UnionType::members-kept"
+    filters = sorted({k for o in uouts if o.kind == "return" for k, _ in o.facts if f"{REC_V}(elem(" in k})
+    member_wise = bool(uvals) and all(isinstance(v.get("types"), ListV) and v.get("types").open and len(v.get("types").items) == 1 and isinstance(v.get("types").items[0], App)
+                                      and v.get("types").items[0].func == REC_V for v in uvals)
+    if member_wise and not filters:
+        col.ok("C05.CTOR-TABLE", key, repo.loc(VISITOR, vfi.node), "the union's members are the element-wise translation of the flattened items, none is filtered")
+    else:
+        col.bad("C05.CTOR-TABLE", key, repo.loc(VISITOR, vfi.node), (f"members are kept or dropped on {filters[0]}" if filters else f"types = {uvals[0].get('types')!r}" if uvals else "no UnionType result")[:200],
+                "a member of a union is dropped on a test over translated members: the model classes compare argument lists as multisets and literal values with ==, so "
+                "`PairOrNone = Union[Tuple[int, str], None]; Union[PairOrNone, Tuple[str, int]]` loses `Tuple<String, Int>` and `Switch = Literal[0, 1]; Union[Switch, Literal[True]]` loses `true`")
     # a class of a library that could not be imported: mypy's Any records the *import* that failed (`numpy` for `import numpy as np`),
     # the class is only spelled in the annotation (`np.ndarray`)
     sta = State({"self": Sym("self")})
